@@ -23,6 +23,7 @@ func init() {
 			c04R6(c, "C04.R6")
 			c04R7(c, "C04.R7")
 			c04R9(c, "C04.R9")
+			c05R5(c, "C04.R10") // bucket/value clash: Get and the cursor report a nested bucket with a nil value
 			ruleRollbackUndoesFrees(c, "C04.R8") // a rolled-back DeleteBucket must not leave the bucket's pages released
 		},
 	})
